@@ -55,6 +55,8 @@ MIN_COUNTERS = {
     'enc_multichannel': 100, 'enc_nested_curves_with_name': 30,
     'ctor_points_equal_times': 50, 'ctor_points_drop': 20,
     'ctor_points_same_point_mixed_curves': 5,
+    'conc_rounds': 300, 'conc_rounds_with_overlapping_builders': 100,
+    'conc_cache_rechecks': 300, 'conc_injected_yields': 100,
 }
 
 CTORS = ['triangle', 'sine', 'perc', 'linen', 'cutoff', 'adsr', 'dadsr', 'asr',
@@ -75,6 +77,15 @@ def plan(tier, seed):
         shards.append({'name': f'ctor{p}', 'mode': 'nrt', 'kind': 'ctor',
                        'first_case': f, 'n': n, 'secs': secs,
                        'hard_timeout': secs + 120})
+    # one multichannel Env shared by threads that use it for the first time
+    # at once (vf/c19_conc.py)
+    n_conc, cparts, csecs = (6000, 2, 12) if tier == 'quick' else \
+        (600_000, 3, 300)
+    for p, (f, n) in enumerate(split(n_conc, cparts)):
+        shards.append({'name': f'conc{p}', 'mode': 'nrt', 'kind': 'conc',
+                       'first_case': f, 'n': n, 'secs': csecs,
+                       'nthreads': 3 + p % 2, 'p_yield': 0.25,
+                       'hard_timeout': csecs + 120})
     return shards
 
 
@@ -100,7 +111,10 @@ def _fmt_to_lists(fmt):
 
 def run_shard(spec, acc):
     kind = spec['shard']['kind']
-    if kind == 'env':
+    if kind == 'conc':
+        from vf.c19_conc import run_conc
+        run_conc(spec, acc)
+    elif kind == 'env':
         run_env(spec, acc)
     else:
         run_ctor(spec, acc)
